@@ -740,7 +740,9 @@ func (g *gctx) forStmt() []*Stmt {
 		// the variable of a 3-clause loop written directly in a generator is hoisted by go-co (shared between
 		// iterations): closures must not capture it there (design exclusion). Inside a plain closure the loop
 		// stays native, so capturing is allowed.
-		g.declare(vinfo{name: i, typ: "int", hdr: g.inGen && !native})
+		// (the counter of such a native loop may be captured, but generated statements must not assign it: in the event-free
+		// profile nothing would stop a loop whose counter is reset in its body)
+		g.declare(vinfo{name: i, typ: "int", hdr: g.inGen && !native, ro: native})
 		s.E = &Expr{K: "cmp", Op: "<", L: &Expr{K: "var", Name: i}, R: bound}
 		s.Post = &Stmt{K: "incdec", Name: i, Op: "++"}
 		if g.inGen && g.noYield == 0 && g.pct(15, "yieldpost") {
